@@ -36,6 +36,11 @@ type Check struct {
 	Exhaustive     bool // the engine enumerates a finite fault space completely per history
 	NoMinimise     bool
 	MaxWorkers     int
+	// ReplayAttempts > 1: the violation class of this check includes dependence on a source
+	// of nondeterminism no seed controls (Go's per-iteration random map order is the very
+	// thing C16/C04 look for). A replay file is then executed up to this many times and
+	// counts as reproduced when any execution shows the recorded violation key.
+	ReplayAttempts int
 }
 
 var registry = map[string]*Check{}
@@ -75,19 +80,19 @@ type Options struct {
 }
 
 type workerResult struct {
-	Runs        int              `json:"runs"`
-	Evals       int              `json:"evals"`
-	Steps       int              `json:"steps"`
-	SimTimeMs   int64            `json:"sim_ms"`
-	Faults      map[string]int   `json:"faults"`
-	Probes      map[string]int   `json:"probes"`
-	Sigs        []string         `json:"sigs"`
-	States      []string         `json:"states"`
-	Samples     []interface{}    `json:"samples"`
-	Violations  []foundViolation `json:"violations"`
-	OtherProps  map[string]int   `json:"other_props"`
-	TraceDigest string           `json:"trace_digest"` // digest over all runs' trace hashes (determinism self-test)
-	StoppedEarly bool            `json:"stopped_early"`
+	Runs         int              `json:"runs"`
+	Evals        int              `json:"evals"`
+	Steps        int              `json:"steps"`
+	SimTimeMs    int64            `json:"sim_ms"`
+	Faults       map[string]int   `json:"faults"`
+	Probes       map[string]int   `json:"probes"`
+	Sigs         []string         `json:"sigs"`
+	States       []string         `json:"states"`
+	Samples      []interface{}    `json:"samples"`
+	Violations   []foundViolation `json:"violations"`
+	OtherProps   map[string]int   `json:"other_props"`
+	TraceDigest  string           `json:"trace_digest"` // digest over all runs' trace hashes (determinism self-test)
+	StoppedEarly bool             `json:"stopped_early"`
 }
 
 type foundViolation struct {
@@ -356,15 +361,22 @@ func RunReplay(o *Options) int {
 		fmt.Fprintln(os.Stderr, "unknown check", id)
 		return 2
 	}
-	run := executeSafe(c, rf.Plan, o.Verbose)
-	for _, v := range run.Violations {
-		if v.Property == rf.Violation.Property && v.Key == rf.Violation.Key {
-			same := "same"
-			if run.TraceHash() != rf.TraceHash {
-				same = "DIFFERENT"
+	attempts := c.ReplayAttempts
+	if attempts < 1 {
+		attempts = 1
+	}
+	var run *Run
+	for a := 0; a < attempts; a++ {
+		run = executeSafe(c, rf.Plan, o.Verbose)
+		for _, v := range run.Violations {
+			if v.Property == rf.Violation.Property && v.Key == rf.Violation.Key {
+				same := "same"
+				if run.TraceHash() != rf.TraceHash {
+					same = "DIFFERENT"
+				}
+				fmt.Printf("REPLAY reproduced property=%s key=%s step=%d trace=%s (%s as recorded, attempt %d)\n  %s\n", v.Property, v.Key, v.Step, run.TraceHash()[:16], same, a+1, v.Msg)
+				return 1
 			}
-			fmt.Printf("REPLAY reproduced property=%s key=%s step=%d trace=%s (%s as recorded)\n  %s\n", v.Property, v.Key, v.Step, run.TraceHash()[:16], same, v.Msg)
-			return 1
 		}
 	}
 	fmt.Printf("REPLAY did not reproduce property=%s key=%s (violations now: %d)\n", rf.Violation.Property, rf.Violation.Key, len(run.Violations))
@@ -579,7 +591,7 @@ func RunParent(o *Options) int {
 		"components_real": c.Real, "components_stub": c.Stub, "engine": c.Engine,
 		"known_findings_reobserved": len(knownLines), "stopped_at_wall_cap": total.StoppedEarly,
 		"violations_of_other_properties_seen": total.OtherProps,
-		"exhaustive": c.Exhaustive,
+		"exhaustive":                          c.Exhaustive,
 	}
 	if inconclusive != "" {
 		cov["inconclusive_zero_probes"] = strings.TrimSpace(inconclusive)
